@@ -41,10 +41,10 @@ def budget(tier):
 @st.composite
 def _gradeblock(draw, d, maxblades=None):
     gs = sorted(draw(st.sets(st.integers(0, d), min_size=1, max_size=d + 1)))
-    keys = [k for k in sorted(range(2 ** d), key=lambda k: (pc(k), k)) if pc(k) in gs]
+    keys = [k for k in S.canon_sorted(range(2 ** d)) if pc(k) in gs]
     while maxblades and len(keys) > maxblades and len(gs) > 1:
         gs = gs[:-1]
-        keys = [k for k in sorted(range(2 ** d), key=lambda k: (pc(k), k)) if pc(k) in gs]
+        keys = [k for k in S.canon_sorted(range(2 ** d)) if pc(k) in gs]
     return {"grades": gs, "keys": keys, "vals": [draw(S.fracs(zero_prob=0.05)) for _ in keys]}
 
 
@@ -59,7 +59,7 @@ def _cases(draw, tier):
     cap = 6 if (heavy and d >= 3) else (8 if d >= 4 else None)
     if op == "sqrt":
         g = draw(st.integers(1, d)) if d else 0
-        keys = [0] + ([k for k in sorted(range(2 ** d), key=lambda k: (pc(k), k)) if pc(k) == g] if d else [])
+        keys = [0] + ([k for k in S.canon_sorted(range(2 ** d)) if pc(k) == g] if d else [])
         vals = [str(draw(st.sampled_from([5, 6, 7, 9])))] + [draw(st.sampled_from(["1/2", "-1/2", "1/4", "1/3", "-1/4", "0"])) for _ in keys[1:]]
         a = {"grades": sorted({0, g}), "keys": keys, "vals": vals}
     else:
